@@ -124,8 +124,9 @@ fn single_faults_at_wrap(ws_list: &[u16]) -> Vec<Scenario> {
 pub fn huge_window_cases() -> Vec<Scenario> {
     let mut out = vec![];
     for role in [Role::Sender, Role::Receiver] {
-        for (ws, blocks) in [(32768u16, 32770usize), (32769, 65540), (40000, 70000), (65535, 70000), (65535, 131074)] {
-            let sc = Scenario::lossless(role, 8, ws, blocks * 8 + 3, 0x1500 + ws as u64);
+        // (blksize, windowsize, blocks): more than 32768 blocks per window; more than 1 MiB and more than 32 MiB per window
+        for (blk, ws, blocks) in [(8usize, 32768u16, 32770usize), (8, 40000, 70000), (65464, 600, 602), (8, 65535, 70000), (1428, 800, 1700), (8, 32769, 65540), (8, 65535, 131074)] {
+            let sc = Scenario::lossless(role, blk, ws, blocks * blk + 3, 0x1500 + ws as u64);
             out.push(sc);
         }
     }
@@ -141,7 +142,7 @@ pub fn run(ctx: &Ctx) {
     let cases = single_faults_at_wrap(&ws_list);
     enumerate(ctx, "exh-single-fault-at-wrap", &cases, true, |c, o| dirs.with(|d| judge(d, c, o)));
     let huge = huge_window_cases();
-    let nh = ctx.tier.pick(6, huge.len());
+    let nh = ctx.tier.pick(8, huge.len());
     enumerate(ctx, "huge-windows", &huge[..nh], false, |c, o| dirs.with(|d| judge(d, c, o)));
     // the real binaries across the wrap: tftpc against tftpd, 65538 blocks of 8 bytes, one download and one upload (thorough: four)
     let wraps = super::c14::wrap_cases();
